@@ -189,7 +189,7 @@ func c20Probe(c *Cfg, p c20Pkg) {
 	}
 	res := c20CheckPkg(p)
 	for _, f := range res.fails {
-		fmt.Printf("FAIL %s: %s\n", f.class, f.what)
+		fmt.Printf("FAIL %s [%s]: %s\n", f.class, f.sem, f.what)
 	}
 	fmt.Println("removed:", res.removed, "replaced:", res.replaced)
 }
